@@ -15,4 +15,13 @@ for s in $seeds; do
     echo "$s $chk $verdict"
   done
 done
-mv seeded/RESULTS.tsv.new seeded/RESULTS.tsv
+# merge with earlier results: the latest verdict per (seed, check) wins
+touch seeded/RESULTS.tsv
+cat seeded/RESULTS.tsv seeded/RESULTS.tsv.new | python3 -c "
+import sys
+d={}
+for l in sys.stdin:
+    p=l.rstrip('\n').split('\t')
+    if len(p)>=3: d[(p[0],p[1])]=l
+for k in sorted(d): sys.stdout.write(d[k])
+" > seeded/RESULTS.tsv.merged && mv seeded/RESULTS.tsv.merged seeded/RESULTS.tsv && rm -f seeded/RESULTS.tsv.new
